@@ -197,6 +197,7 @@ def gen_spec(r, P):
                 m[c] = row
             ccm.append(m)
         S["ccm"] = ccm
+        S["ccm_order"] = r.sample(classes, k)      # key order of the class-change dictionaries handed to create_network
     S["cct"] = None
     if k > 1 and F("cct"):
         cct = {}
@@ -363,14 +364,18 @@ def can_self_loop(S, j):
     return False
 
 
-def sanitize(S):
+ALL_RULES = ("KF-A", "KF-B", "KF-C", "KF-D", "KF-E")
+
+
+def sanitize(S, rules=ALL_RULES):
     """Steer a spec away from the feature conjunctions of OPEN known findings (known_findings.json);
-    each rule here corresponds to one open entry, whose pinned reproducer is replayed by every run."""
+    each rule here corresponds to one open entry, whose pinned reproducer is replayed by every run.
+    A property whose own clauses are not affected by a finding may switch that rule off (profiles.py)."""
     # KF-C: a processor-sharing node whose customers can be blocked (or that customers are blocked into)
-    if any(S["ps"]):
+    if "KF-C" in rules and any(S["ps"]):
         S["qcap"] = [INF] * S["n"]
     # KF-D: exact arithmetic with schedule / slot dates that are not exactly representable in binary
-    if S.get("exact"):
+    if "KF-D" in rules and S.get("exact"):
         for s in S["servers"]:
             if s["k"] in ("sched", "slot"):
                 key = "ends" if s["k"] == "sched" else "slots"
@@ -380,18 +385,18 @@ def sanitize(S):
                 s[key] = ds
                 s["off"] = round(s["off"] * 4) / 4
     # KF-E: jockeying (after reneging) into a node with finite capacity ignores that capacity
-    for rt in S["routing"].values():
+    for rt in (S["routing"].values() if "KF-E" in rules else ()):
         if rt["k"] == "net" and rt.get("jockey"):
             rt["jockey"] = [(-1 if (d != -1 and S["qcap"][d - 1] != INF) else d) for d in rt["jockey"]]
     blocking = any(q != INF for q in S["qcap"])
     for j, s in enumerate(S["servers"], 1):
         # KF-A: a pre-emptive shift end / capacitated pre-emptive slot interrupting a BLOCKED customer
-        if blocking and s["k"] in ("sched", "slot") and s["pre"]:
+        if "KF-A" in rules and blocking and s["k"] in ("sched", "slot") and s["pre"]:
             s["pre"] = False
         # KF-B: pre-emptive rerouting straight back into the node that is shedding its servers
-        if s["k"] == "sched" and s["pre"] == "reroute" and can_self_loop(S, j):
+        if "KF-B" in rules and s["k"] == "sched" and s["pre"] == "reroute" and can_self_loop(S, j):
             s["pre"] = "restart"
-    if S.get("preempt"):
+    if "KF-B" in rules and S.get("preempt"):
         for j in range(1, S["n"] + 1):
             if S["preempt"][j - 1] == "reroute" and can_self_loop(S, j):
                 S["preempt"][j - 1] = "restart"
